@@ -3,8 +3,8 @@ package main
 // Term DAG with hash-consing, light simplification and SMT-LIB printing.
 
 import (
-	"os"
 	"fmt"
+	"os"
 	"sort"
 	"strconv"
 	"strings"
